@@ -7,9 +7,10 @@
    5. synonyms       mnemonics documented as synonyms, looked up in the regenerated opcode table
    6. word lists     '.word a, b' (metacommands.word) vs implicit list (Compiler.compile_word_list)
 
-   Strings are lists of code points (N); the models cover ASCII text and answer [LUnmodelled]
-   where the code's behaviour depends on Unicode tables (non-ASCII letters match '[a-z]' under
-   re.I, str.lower of non-ASCII, ...). *)
+   Strings are lists of code points (N).  Parser.regex compiles with re.I | re.ASCII (pinned by
+   tools/gens/gen_spelling.py), so character classes are the ASCII ones below; [LUnmodelled]
+   is kept for int() failing on a digit string the classes admitted (cannot happen: proved
+   for all spellings in Proofs/SpellingP.v). *)
 From Coq Require Import List NArith ZArith Bool String Ascii.
 From Verif Require Import Base.Res Gen.GenOpcodes Gen.GenSpelling Model.CIDict Model.SkipWs.
 Import ListNotations.
@@ -146,8 +147,8 @@ Fixpoint caret_number (rows : list (string * string * N)) (sign : Z) (s : str) :
             | _ =>
                 match after with
                 | c :: _ =>
-                    if negb (is_ascii c) then LUnmodelled
-                    else if is_word c || (c =? 36) || (c =? 46) then LCritical
+                    (* (?![$_.])\b with re.ASCII: a non-ASCII character is not a word character *)
+                    if is_word c || (c =? 36) || (c =? 46) then LCritical
                     else match py_int base ds with
                          | Some v => LNumber (sign * Z.of_N v) false false false
                          | None => LUnmodelled
@@ -176,9 +177,8 @@ Definition plain_number (sign : Z) (s1 : str) : lexres :=
       if negb (is_digit c0) then LNotNumber
       else
         let (tok, after) := span is_tokch s1 in
-        let unmod := match after with c :: _ => negb (is_ascii c) | [] => false end in
-        if unmod then LUnmodelled
-        else match skip after with
+        (* re.I | re.ASCII: [a-z] matches ASCII letters only, any other character ends the token *)
+        match skip after with
              | 58 :: _ => LNotNumber            (* followed by ':' : a local label *)
              | _ =>
                  let has_dot := match last_opt tok with Some 46 => true | _ => false end in
